@@ -8,9 +8,12 @@ EXPLANATION = ('For HashJoinExec, NestedLoopJoinExec, SortMergeJoinExec, Piecewi
                'maintains_input_order table is extracted exhaustively and checked against the same operator\'s probe-side and '
                'final-emission tables: a side may be declared order-preserving only if it is the probe/streamed side and the '
                'operator appends no rows of that type after the probe phase; at most one side. RepartitionExec declares '
-               'order preservation only under preserve_order or a single input partition. Equivalence classes, constants '
+               'order preservation only under preserve_order or a single input partition. Join constants: the function that combines the '
+               'equivalence groups of the two join children (found by signature) does not carry a side\'s classes over by a verbatim clone '
+               '(constant markers kept) for a join type where the reference model can NULL-extend that side. Equivalence classes '
                'and monotonic functions (value-dependent) are not decided.')
-ASSUMPTIONS = ['HashJoin/NLJ probe side is the right input (HashJoinExec::probe_side is extracted, NLJ by documented convention)']
+ASSUMPTIONS = ['HashJoin/NLJ probe side is the right input (HashJoinExec::probe_side is extracted, NLJ by documented convention)',
+               'a side whose classes go through a transforming function (not a verbatim clone) is not decided further (the literal-member case of F17 on the right side was found by reading)']
 
 P = 'datafusion_physical_plan::joins::'
 SIDE = ['left', 'right']
@@ -50,8 +53,77 @@ def check_mio(ctx, rule, name, t, probe, appends, where):
     return bad
 
 
+def join_constants(ctx, facts, group_ty='datafusion_physical_expr::equivalence::class::EquivalenceGroup', jt_adt=JT, rule='join-constants-null-extension'):
+    """The function that combines the equivalence groups of the two join children (found by signature: two groups and a join type in, a group out):
+    for every join type and side, if the reference model can NULL-extend that side, the side's classes must not be carried over by a verbatim clone
+    (`iter().cloned()` / `clone()` keeps the constant markers; a constant of that side is NULL in the unmatched rows, so the join would declare a
+    constant its output does not have and e.g. a sort or filter on it could be optimised away)."""
+    from traces import run_traces
+    import re as _re
+    cands = []
+    for d, i, e in facts.all_fn_entries():
+        sg = e[8]
+        if not sg or e[4] not in ('fn', 'assoc_fn') or '::test' in d:
+            continue
+        if sum(1 for t in sg[1:] if t.lstrip('&') == group_ty) == 2 and any(t.lstrip('&') == jt_adt for t in sg[1:]) and group_ty in sg[0]:
+            cands.append(d)
+    n = 0
+    for d in sorted(cands):
+        rec = facts.fn(d)
+        ctx.analysed_fns.add(d)
+        gi = [k for k in range(rec['argc']) if rec['locals'][k + 1][0].lstrip('&') == group_ty]
+        ji = [k for k in range(rec['argc']) if rec['locals'][k + 1][0].lstrip('&') == jt_adt][0]
+        side_name = {0: 'side0', 1: 'side1'}
+        for jtv in enum_domain(facts, jt_adt, rec['locals'][ji + 1][0].startswith('&')):
+            args = []
+            for k in range(rec['argc']):
+                ty = rec['locals'][k + 1][0]
+                if k == gi[0]:
+                    v = sym('side0')
+                elif k == gi[1]:
+                    v = sym('side1')
+                elif k == ji:
+                    args.append(jtv)
+                    continue
+                else:
+                    v = sym('a%d' % k)
+                args.append(R(v) if ty.startswith('&') else v)
+            try:
+                outs = run_traces(facts, rec, args, inline_depth=0, time_budget=20, budget=400000, loop_visits=1, try_tags=True)
+            except Undecidable as ex:
+                ctx.undecided(rule, '%s(%s)' % (d.rsplit('::', 1)[-1], strip(jtv).name), str(ex))
+                continue
+            verbatim = set()
+            for o in outs:
+                r = strip(o.ret)
+                if not (isinstance(r, A) and r.name == 'Ok'):
+                    continue
+                for ev in o.events:
+                    if ev[0] == 'callargs' and ev[2]:
+                        last = ev[1].rsplit('::', 1)[-1]
+                        t0 = tag_of(ev[2][0]) or ''
+                        m = _re.match(r'^call:iter@\d+\((side[01])\)$', t0)
+                        if last == 'cloned' and m:
+                            verbatim.add(int(m.group(1)[-1]))
+                        if last == 'clone' and t0 in ('side0', 'side1'):
+                            verbatim.add(int(t0[-1]))
+            jt = strip(jtv).name
+            for side in (0, 1):
+                n += 1
+                inst = '%s(%s,%s)' % (d.rsplit('::', 1)[-1], jt, SIDE[side])
+                ext = oracle('can_null_extend', jt, side)
+                if ext and side in verbatim:
+                    ctx.fail(rule, inst, ctx.loc(rec), 'a %s join can NULL-extend its %s side, but the %s classes are carried into the joined group by a verbatim clone (constant markers kept): '
+                             'a constant of that side is NULL in the unmatched rows' % (jt, SIDE[side], SIDE[side]), key='%s|%s' % (rule, inst))
+                else:
+                    ctx.ok(rule, inst, nontrivial=ext, sample={'jt': jt, 'side': SIDE[side], 'model_null_extends': ext, 'verbatim_clone': side in verbatim} if ext else None)
+    return n
+
+
 def run(ctx):
     f = ctx.facts
+    njc = join_constants(ctx, f)
+    ctx.floor('join-constants-null-extension', '(join type, side) pairs decided for the group-joining function', njc, 20)
     final = jt_table(ctx, 'mio', P + 'utils::need_produce_result_in_final', False)
     pw_final = jt_table(ctx, 'mio', P + 'piecewise_merge_join::utils::need_produce_result_in_final', False)
     smj_probe = jt_table(ctx, 'mio', P + 'sort_merge_join::exec::SortMergeJoinExec::probe_side', True)
